@@ -4,6 +4,7 @@ package harness
 // Oracle: refApply (ref_apply_test.go) after every step; all fields of the resolution model are compared.
 
 import (
+	"encoding/json"
 	"fmt"
 	"testing"
 
@@ -86,6 +87,9 @@ func runHistory(t *rapid.T, o historyOpts, st *propStats) {
 		journal("Apply", []byte(refJCS(map[string]interface{}{"type": typ, "request": string(c.Bytes)})))
 		got, err := stack.Applier.Apply(op, lib)
 		desc := fmt.Sprintf("step %d: %s/%s (expected %s) from=%d until=%d t=%d delta=%d\n request=%s", s, typ, c.Class, wantOut, c.From, c.Until, m.Time, p.MaxOperationTimeDelta, clip(string(c.Bytes), 3000))
+		if string(opBytes) != string(c.Bytes) {
+			desc += "\n as anchored (re-spelled)=" + clip(string(opBytes), 4000)
+		}
 		if o.snapshots {
 			if verr := before.verify(); verr != nil {
 				t.Fatalf("%s Apply mutated the previous state: %v\n%s", o.prop, verr, desc)
@@ -125,7 +129,19 @@ func runHistory(t *rapid.T, o historyOpts, st *propStats) {
 		}
 		if o.prop == "C01" {
 			if cerr := compareModel(got, want, pub, unpub); cerr != nil {
-				t.Fatalf("C01 resolved state differs from the Sidetree fold: %v\n%s\n history so far: %+v", cerr, desc, hist)
+				diag := ""
+				if lps, perr := libPatches(c.Patches); perr == nil && lib.Doc != nil {
+					_, aerr := stack.Composer.ApplyPatches(lib.Doc, lps)
+					diag = fmt.Sprintf("\n (diagnostic: composer on the previous document with this operation's patches: err=%v; previous document=%s)", aerr, docCanon(lib.Doc))
+					if typ == "update" {
+						if parsed, perr := stack.Parser.ParseUpdateOperation(opBytes, true); perr == nil && parsed.Delta != nil {
+							_, aerr2 := stack.Composer.ApplyPatches(lib.Doc, parsed.Delta.Patches)
+							pj, _ := json.Marshal(parsed.Delta.Patches)
+							diag += fmt.Sprintf("\n (diagnostic: with the patches as the parser delivers them: err=%v, validate=%v)\n parser patches: %s\n model patches:  %s", aerr2, stack.Parser.ValidateDelta(parsed.Delta), pj, refJCS(c.Patches))
+						}
+					}
+				}
+				t.Fatalf("C01 resolved state differs from the Sidetree fold: %v\n%s\n history so far: %+v%s", cerr, desc, hist, diag)
 			}
 		}
 		lib, ref = got, want
